@@ -373,6 +373,12 @@ static inline int ubuf_block_delete(struct ubuf *ubuf, int offset, int size)
         return UBASE_ERR_INVALID;
 
     struct ubuf_block *head_block = ubuf_block_from_ubuf(ubuf);
+    if (size != -1) {
+        int start = offset < 0 ? offset + (int)head_block->total_size : offset;
+        if (unlikely(start < 0 || size < 0 ||
+                     (size_t)start + size > head_block->total_size))
+            return UBASE_ERR_INVALID;
+    }
     if (unlikely((ubuf = ubuf_block_get(ubuf, &offset, &size)) == NULL))
         return UBASE_ERR_INVALID;
     int delete_size = size;
